@@ -518,6 +518,9 @@ class Result:
         self.levels = []
         self.cut = None
         self.error = None
+        self.subsumed = 0
+        self.selftest_checked = 0
+        self.selftest_failures = 0
 
 
 def explore_spec(pool, spec, root_id, root_node, deadline=None, max_viols=40, log=None):
@@ -530,6 +533,9 @@ def explore_spec(pool, spec, root_id, root_node, deadline=None, max_viols=40, lo
     # the initial state is a rest state too
     res.rest[sig_digest(canon_sig(root_node.kt, [root_node.state], []))] = None
     depth = 0
+    reservoir = []
+    RES_K = 48
+    _rs = random.Random(1234 + root_id)
     while frontier and depth < spec.depth:
         nxt = []
         chunk = max(1, min(16, len(frontier) // 64))
@@ -547,6 +553,15 @@ def explore_spec(pool, spec, root_id, root_node, deadline=None, max_viols=40, lo
                 if dg not in seen:
                     seen.add(dg)
                     nxt.append(blob)
+                else:
+                    # reservoir sample of subsumed nodes for the closure self-test below
+                    res.subsumed += 1
+                    if len(reservoir) < RES_K:
+                        reservoir.append(blob)
+                    else:
+                        j = _rs.randrange(res.subsumed)
+                        if j < RES_K:
+                            reservoir[j] = blob
             for v in vout:
                 if len(res.viols) < max_viols or v[0] not in {x[0] for x in res.viols}:
                     res.viols.append(v)
@@ -568,6 +583,16 @@ def explore_spec(pool, spec, root_id, root_node, deadline=None, max_viols=40, lo
             break
     res.depth = depth
     res.fixpoint = not frontier
+    # subsumption self-test: at a fixpoint the successors of *subsumed* nodes (not only of the representatives that
+    # were expanded) must all be known configurations; a miss means the canonical form forgot something the future depends on
+    if res.fixpoint and reservoir and not res.error and (deadline is None or time.time() < deadline + 30):
+        for out, stats, vout, rest, samples in pool.imap_unordered(_w_expand, reservoir, chunksize=4):
+            if out is None:
+                continue
+            res.selftest_checked += 1
+            for dg, blob in out:
+                if dg not in seen:
+                    res.selftest_failures += 1
     res.secs = time.time() - t0
     return res
 
